@@ -46,10 +46,12 @@ theorem connectBestChain_spec {s : State} (hi : Inv s) {b p : Block} (hb : b ∈
       refine ⟨s, .side, ?_, hi, ⟨rfl, rfl, rfl, rfl, rfl, rfl⟩,
         .stay t rest tt (b.diff + tp) hbest hpar htt hbtd hside rfl rfl rfl⟩
       simp only [connectBestChain, hbest, hpar, if_false, htt, hptd, hside, if_true, hff]
-    · obtain ⟨s', hr, hi', hbest', h1, h2, h3, h4, h5, h6, h7, h8⟩ := reorgTo_spec hi hb
+    · obtain ⟨f, _, _, _, hff, _⟩ := findFork_spec hi hb
+      obtain ⟨s', hr, hi', hbest', h1, h2, h3, h4, h5, h6, h7, h8⟩ := reorgTo_spec hi hb
+      rw [hff] at hr
       refine ⟨s', .main, ?_, hi', ⟨h1, h2, h3, h4, h5, h6⟩,
         .reorg t rest tt (b.diff + tp) hbest hpar htt hbtd (by omega) (by omega) hbest' h7 h8⟩
-      simp only [connectBestChain, hbest, hpar, if_false, htt, hptd, hside, hr]
+      simp only [connectBestChain, hbest, hpar, if_false, htt, hptd, hside, hff, hr]
 
 /-- `Inv` after adding a fresh block whose parent is indexed (store + index). -/
 theorem Inv.addBlock {s : State} (hi : Inv s) {b p : Block} (hp : p ∈ s.index) (hpid : p.id = b.parent)
